@@ -239,6 +239,7 @@ func checkC07(c *km.Ctx) {
 		r.AnchorLost("R-C07-2", "assignment of expirationDuration")
 	}
 
+	checkLDAPBindVerdict(c, s)
 	checkUpsertStatements(c, "R-C07-2", "expiring_signed_user_data", []string{"jws_data", "expiration_epoch"}, 2)
 	// ---------- R-C07-3 (the acceptance of a cached record is judged in checkLDAPVerdict)
 	if gs := c.MustFunc("R-C07-3", "cmd/keymasterd", "(*RuntimeState).GetSigned"); gs != nil {
@@ -857,5 +858,91 @@ func checkLDAPVerdict(c *km.Ctx, s *km.Sem, pa, upd *ssa.Function) {
 			}
 			r.Add("R-C07-1", km.FuncName(fl), "cache unreachable once a server answered", posOf(c, g), "no path from the err == nil edge of CheckLDAPUserPassword to the cache lookup, in this function or through its callers", found, okG)
 		}
+	}
+}
+
+// checkLDAPBindVerdict: lib/authutil.CheckLDAPUserPassword turns the directory's answer into the verdict the
+// authenticator treats as final: (true, nil) only after a bind that returned no error; (false, nil) - "the
+// directory rejected this password" - only when the bind error is the invalid-credentials answer, recognised
+// either by its text (which survives wrapping) or by ldap.IsErrorWithCode applied to the bind's own error value
+// (IsErrorWithCode asserts the concrete *ldap.Error type: a wrapped error never matches, and the rejection would
+// be reported as "no answer", letting the cache decide).
+func checkLDAPBindVerdict(c *km.Ctx, s *km.Sem) {
+	r := c.R
+	fn := c.MustFunc("R-C07-1", "lib/authutil", "CheckLDAPUserPassword")
+	if fn == nil {
+		return
+	}
+	const bind = "(*gopkg.in/ldap.v2.Conn).Bind"
+	bindOK := primErrNil("bind returned no error", bind, 0)
+	fromBind := func(k km.Conj, e ssa.Value, allowWrap bool) bool {
+		lfs := s.Leaves(k, fn, nil, e, nil, 3)
+		if len(lfs) == 0 {
+			return false
+		}
+		for _, lf := range lfs {
+			v := km.Unwrap(lf.Val)
+			if km.IsNilConst(v) {
+				continue
+			}
+			cl, _ := callRes(v)
+			if cl == nil {
+				return false
+			}
+			switch km.CalleeFull(cl.Common()) {
+			case bind:
+			case "fmt.Errorf":
+				if !allowWrap {
+					return false
+				}
+			default:
+				return false
+			}
+		}
+		return true
+	}
+	invalidCreds := func(k km.Conj) bool {
+		for _, f := range k.List() {
+			cl, ok := f.X.(*ssa.Call)
+			if f.Op != token.ILLEGAL || !f.Pol || !ok {
+				continue
+			}
+			switch km.CalleeFull(cl.Common()) {
+			case "strings.Contains":
+				if cs, isC := km.ConstString(cl.Common().Args[1]); isC && cs == "Invalid Credentials" {
+					if ec, isE := km.Unwrap(cl.Common().Args[0]).(*ssa.Call); isE && ec.Common().IsInvoke() && ec.Common().Method.Name() == "Error" {
+						if fromBind(k, ec.Common().Value, true) {
+							return true
+						}
+					}
+				}
+			case "gopkg.in/ldap.v2.IsErrorWithCode":
+				if code, isC := km.ConstInt(cl.Common().Args[1]); isC && code == 49 && fromBind(k, cl.Common().Args[0], false) {
+					return true
+				}
+			}
+		}
+		return false
+	}
+	nRej, nAcc := 0, 0
+	for _, rc := range s.RetCases(fn) {
+		if len(rc.Results) != 2 || !km.IsNilConst(rc.Results[1]) {
+			continue
+		}
+		switch km.ValStr(km.Unwrap(rc.Results[0])) {
+		case "true":
+			nAcc++
+			ok := rc.State.All(func(k km.Conj) bool { return s.Holds(k, bindOK) })
+			r.Add("R-C07-1", km.FuncName(fn), "directory accepts", posOf(c, rc.Ret), "(true, nil) only after a bind that returned no error", clipS(rc.State.String(), 240), ok)
+		case "false":
+			nRej++
+			ok := len(rc.State) > 0 && rc.State.All(invalidCreds)
+			r.Add("R-C07-1", km.FuncName(fn), "directory rejects", posOf(c, rc.Ret), "(false, nil) only for the invalid-credentials answer of the bind (by its text, or by IsErrorWithCode on the bind's own error value)", clipS(rc.State.String(), 240), ok)
+		default:
+			r.Add("R-C07-1", km.FuncName(fn), "computed verdict", posOf(c, rc.Ret), "verdicts are the constants chosen by the bind outcome", km.ValStr(rc.Results[0]), false)
+		}
+	}
+	if nRej == 0 || nAcc == 0 {
+		r.AnchorLost("R-C07-1", sprintf("accepting (%d) / rejecting (%d) verdict returns of CheckLDAPUserPassword", nAcc, nRej))
 	}
 }
